@@ -476,10 +476,11 @@ class DatasetProcessor:
                     self.reference_record_dict = Fasta(self.args.reference, indexname=args.fai_file_name)
                 except UnsupportedCompressionFormat:
                     gunzipped_reference = os.path.join(args.output, ref_name)
-                    if not os.path.exists(gunzipped_reference) or not self.args.resume:
-                        with open(gunzipped_reference, "w") as outf:
-                            shutil.copyfileobj(gzip.open(self.args.reference, "rt"), outf)
-                        logger.info("Loading uncompressed reference from " + gunzipped_reference)
+                    # always unpack, also when resuming: a file with this name may be the partial copy left by a
+                    # killed run, or the copy of another reference left by an earlier run in this folder
+                    with open(gunzipped_reference, "w") as outf:
+                        shutil.copyfileobj(gzip.open(self.args.reference, "rt"), outf)
+                    logger.info("Loading uncompressed reference from " + gunzipped_reference)
                     self.args.reference = gunzipped_reference
                     self.reference_record_dict = Fasta(self.args.reference, indexname=args.fai_file_name)
             else:
